@@ -56,7 +56,7 @@ func otherKey(k tok.KeyRef, sameAlg bool, alt int) tok.KeyRef {
 	if sameAlg {
 		n := 6
 		if k.Alg == keys.RSA {
-			n = keys.RSAPoolSize()
+			n = keys.RSAFast
 		}
 		return tok.KeyRef{Alg: k.Alg, Idx: (k.Idx + 1 + alt%(n-1)) % n}
 	}
